@@ -380,6 +380,12 @@ func FuzzCodec(f *testing.F) {
 			{Kind: "bytes", Note: "raw", Input: input, Dirty: flags&1 != 0},
 			{Kind: "value", Note: "fuzz", V: &val, Dirty: flags&2 != 0},
 		}}
+		how := presentations[int(flags>>2)%len(presentations)]
+		c.Trials = append(c.Trials, Trial{Kind: "present", How: how, Note: how, V: &val, Input: input, NonZero: flags&0x80 != 0,
+			Params: badParams[int(z.r.u8())%len(badParams)], Index: int(z.r.u8())})
+		if how != mBadParams && how != uBadParams && c.Trials[2].Index%4 != 0 {
+			c.Trials[2].Params = ""
+		}
 		v := checkCase(t, c)
 		for _, x := range v.Violations {
 			if known[x.Sig] {
